@@ -23,7 +23,7 @@ class QueryPlan:
         # What is it?
         # if self.result_refs != other.result_refs:
         #     return False
-        # return True
+        return True
 
     @property
     def last_step_index(self):
